@@ -22,6 +22,8 @@ EXPLANATION = (
 
 
 def run(ctx: Ctx) -> None:
+    from ..rules import effects as _eff
+    _eff.rule_weighted_fidelity(ctx)
     from .c07 import rule_wrappers
     rule_wrappers(ctx)  # the mixed-stabilizer gate methods are what a noisy simulation runs; they must agree with the pure ones
     from ..rules import memo as _memo
@@ -47,6 +49,7 @@ def run(ctx: Ctx) -> None:
 
 
 KNOCKOUTS = [
+    Knockout("branch-fidelity-unweighted", "graphiq/metrics.py", sub_once("[p_i * sfm.fidelity(tableau, t_i) for p_i, t_i in rep_data.mixture]", "[sfm.fidelity(tableau, t_i) for p_i, t_i in rep_data.mixture]"), "weight.fidelity", "not weighted"),
     Knockout("measurement-renormalises", "graphiq/backends/density_matrix/state.py", sub_once("probs[outcome] / np.sum(probs)", "probs[outcome]"), "weight.preserve", "renormalises a sub-normalised state", on_fixed_only=True),
     Knockout("noise-not-restored", CBASE, sub_nth("                            op.noise = noise_copy\n", "", 0), "effect.stale-swap-read", "not restored"),
     Knockout("mixture-getter-copies", "graphiq/backends/stabilizer/state.py", sub_once("        return self._mixture\n\n    @mixture.setter", "        return self._mixture.copy()\n\n    @mixture.setter"), "effect.getter-alias", "getter returns a copy"),
